@@ -22,10 +22,10 @@ type Dev struct {
 }
 
 type c05Case struct {
-	M      uint64 `json:"chunk"`   // MaxHeadersPerRangeRequest
-	K      int    `json:"peers"`   // tracked peers
-	FromH  uint64 `json:"from"`    // height of `from`
-	To     uint64 `json:"to"`      // exclusive upper bound
+	M      uint64 `json:"chunk"` // MaxHeadersPerRangeRequest
+	K      int    `json:"peers"` // tracked peers
+	FromH  uint64 `json:"from"`  // height of `from`
+	To     uint64 `json:"to"`    // exclusive upper bound
 	Honour bool   `json:"honour_deadlines"`
 	Devs   []Dev  `json:"deviations"`
 }
